@@ -98,6 +98,7 @@ type Term struct {
 }
 
 type TB struct {
+	NewRefs  map[*Term]bool // reference terms known (from an assumed fresh() postcondition) to be allocated during the run
 	Rewrite  map[*Term]*Term // oriented precondition equalities: entry-state load paths -> defining terms
 	oldCache map[*Term]bool
 	Known    map[*Term]bool // case assumptions: these Bool terms fold to their value while set
@@ -125,7 +126,7 @@ type DTField struct {
 }
 
 func NewTB() *TB {
-	tb := &TB{OldRefs: map[*Term]bool{}, tab: map[string]*Term{}, fresh: map[string]int{}, dtDecl: map[string]*DTDecl{}, ufDecl: map[string]string{}}
+	tb := &TB{NewRefs: map[*Term]bool{}, OldRefs: map[*Term]bool{}, tab: map[string]*Term{}, fresh: map[string]int{}, dtDecl: map[string]*DTDecl{}, ufDecl: map[string]string{}}
 	tb.DeclareDT(&DTDecl{Name: "Slice", Ctor: "mkSlice", Fields: []DTField{{"s.base", SRef}, {"s.off", SBV64}, {"s.len", SBV64}, {"s.cap", SBV64}}})
 	tb.DeclareDT(&DTDecl{Name: "Str", Ctor: "mkStr", Fields: []DTField{{"t.base", SRef}, {"t.off", SBV64}, {"t.len", SBV64}}})
 	tb.DeclareDT(&DTDecl{Name: "Iface", Ctor: "mkIface", Fields: []DTField{{"i.tag", SInt}, {"i.ref", SRef}}})
@@ -1407,6 +1408,9 @@ func (tb *TB) Script(asserts []*Term, getvals []*Term, cvc5 bool) string {
 func (tb *TB) isNewRef(t *Term) bool {
 	for t.Op == "ctor" && t.Name == "sub" {
 		t = t.Args[0]
+	}
+	if tb.NewRefs[t] {
+		return true
 	}
 	if t.Op != "ctor" || t.Name != "obj" {
 		return false
